@@ -25,7 +25,8 @@ EXPLANATION = (
     'sector whose own add_user is guarded; the rejection loop of add_random_user keeps both the containment and '
     'the minimum-distance disjunct. Not decided: border-point geometry, cluster layout distances, point processes. '
     'Dropped from DESIGN: "Rectangle corners follow pos" - after the containment fix the test agrees with the '
-    'vertices for every pos, so demanding it would exceed what C19 states.')
+    'vertices for every pos, so demanding it would exceed what C19 states.'
+    ' General rules also applied here (see DESIGN 10.5): validate-before-commit (no `raise` reachable after the object was already changed in a public mutator); falsy-zero (Optional numeric parameters tested with `is None`, never by truthiness).')
 
 PLACEMENT = {'_pos', '_rotation', '_radius'}
 EXEMPT = {('Circle', '_rotation'): 'a disc is invariant under rotation about its centre'}
